@@ -669,6 +669,10 @@ var contents = []string{
 	"tab\there",
 	"👩‍🚀 ok",
 	lineN("l", 70),
+	// round 3: lines exactly as wide as a small Max.Width (3, 5) and one column wider, a wide grapheme
+	// in the last column, a trailing zero-width grapheme (the F316 shapes); CRLF and a lone CR (text.hardLines)
+	"abc\nab世\nabcde\u200b",
+	"a\r\nb\rc",
 }
 
 var consV = []int{0, 1, 2, 3, 5, 80, 255, 256, 65534, 65535}
